@@ -326,7 +326,8 @@ class PostprocessTableWithFieldOutput(Contract):
         core.register_model_var("row", i)
         raw = core.as_z3_bool(check_output.at(i))
         if self.fixed.get("index", "same") == "same":
-            out["reported_output_is_raw_or_all_null_row_under_ignore_na"] = SBool(z3.Implies(check_obj.sel(i), core.as_z3_bool(rep.at(i)) == z3.Or(raw, z3.And(ign, check_obj.row_all_null(i)))))
+            # Check(ignore_na=True): "For dataframes, ignores rows with any null value" (the documentation of the option)
+            out["rows_with_a_null_value_are_ignored_under_ignore_na"] = SBool(z3.Implies(check_obj.sel(i), core.as_z3_bool(rep.at(i)) == z3.Or(raw, z3.And(ign, check_obj.row_any_null(i)))))
             out["reported_over_the_tables_rows"] = SBool(rep.sel(i) == check_obj.sel(i))
             fc = result.attrs["failure_cases"]
             failing = z3.And(check_obj.sel(i), z3.Not(core.as_z3_bool(rep.at(i))))
